@@ -93,6 +93,11 @@ def sort(o):
     for b in BOOL_CLASSES:
         if isa(o, b):
             return "bool"
+    if isa(o, "Ternary"):
+        # c ? x : y has the sort of its arms (ITE over two booleans is a boolean)
+        arms = _F(o)["ops"][1:]
+        if arms and all(sort(a) == "bool" for a in arms):
+            return "bool"
     if isa(o, "MacroInvocation"):
         g = group(o)
         if "BOOL" in str(g):
@@ -202,20 +207,36 @@ def _bvpair(a, b, what):
     return x, y
 
 
-def wf_problems(o, depth=0):
-    """Returns a list of well-formedness problems of node o (empty list = WF)."""
-    probs = []
+def wf_split(o, depth=0):
+    """(flag problems, structural problems) of node o.
+    flag: sort(n) = bool  <=>  value_type.group has BOOL (consumers such as init_a_cast look at the flag);
+    structural: the ghost meaning is undefined (bool where a bit-vector is needed, unequal widths, ...)."""
+    flags, structs = [], []
     try:
         s = sort(o)
         g = group(o)
         is_bool_flag = "BOOL" in str(g)
         if (s == "bool") != is_bool_flag:
-            probs.append(f"{o!r}: sort is {s} but value_type.group is {g}")
-        if "den" not in ghost(o):
-            den(o)
-            for ch in _F(o).get("ops", []) or []:
-                if _is_rec(ch) or hasattr(ch, "value_type"):
-                    probs.extend(wf_problems(ch, depth + 1))
+            flags.append(f"{o!r}: sort is {s} but value_type.group is {g}")
     except NotWF as e:
-        probs.append(str(e))
-    return probs
+        structs.append(str(e))
+        return flags, structs
+    if "den" not in ghost(o):
+        try:
+            den(o)
+        except NotWF as e:
+            structs.append(str(e))
+        for ch in _F(o).get("ops", []) or []:
+            if _is_rec(ch) or hasattr(ch, "value_type"):
+                f2, s2 = wf_split(ch, depth + 1)
+                flags.extend(f2)
+                for x in s2:
+                    if x not in structs:
+                        structs.append(x)
+    return flags, structs
+
+
+def wf_problems(o, depth=0):
+    """Returns a list of well-formedness problems of node o (empty list = WF)."""
+    f, s = wf_split(o)
+    return f + s
